@@ -265,3 +265,66 @@ def gen_nested_definition(rng, depth=3, with_sensor=True):
     return {"dt": "dt", "state": [vx, vy, px, py], "control": [ux, uy], "calibration": [c1, c2], "state_model": sm, "sensors": sensors,
             "process_noise": {ux: 0.25, uy: 0.5}, "sensor_noise": {k: {r: 0.5 for r in rd} for k, rd in sensors.items()},
             "calibration_map": {c1: rng.choice([0.25, 0.5, -0.125]), c2: rng.choice([0.125, 0.0625])}, "rational": True}
+
+
+def rename_expr(e, f):
+    t = e[0]
+    if t == "num":
+        return e
+    if t == "var":
+        return ["var", f.get(e[1], e[1])]
+    if t in ("add", "mul"):
+        return [t, rename_expr(e[1], f), rename_expr(e[2], f)]
+    if t == "pow":
+        return ["pow", rename_expr(e[1], f), e[2]]
+    return ["fn", e[1], rename_expr(e[2], f)]
+
+
+def rename_definition(d, f, fr=None, fk=None):
+    """consistently rename symbols (f), reading names (fr: per sensor dict) and sensor keys (fk)"""
+    fr, fk = fr or {}, fk or {}
+    g = lambda x: f.get(x, x)
+    out = dict(d)
+    out["state"] = [g(x) for x in d["state"]]
+    out["control"] = [g(x) for x in d["control"]]
+    out["calibration"] = [g(x) for x in d["calibration"]]
+    out["state_model"] = {g(k): rename_expr(v, f) for k, v in d["state_model"].items()}
+    out["sensors"] = {fk.get(k, k): {fr.get(k, {}).get(r, r): rename_expr(e, f) for r, e in rd.items()} for k, rd in d["sensors"].items()}
+    out["process_noise"] = {g(k): v for k, v in d["process_noise"].items()}
+    out["sensor_noise"] = {fk.get(k, k): {fr.get(k, {}).get(r, r): v for r, v in rd.items()} for k, rd in d["sensor_noise"].items()}
+    out["calibration_map"] = {g(k): v for k, v in d["calibration_map"].items()}
+    return out
+
+
+def rename_point(p, f, fr=None, fk=None):
+    fr, fk = fr or {}, fk or {}
+    g = lambda x: f.get(x, x)
+    q = dict(p)
+    q["state"] = {g(k): v for k, v in p["state"].items()}
+    q["control"] = {g(k): v for k, v in p["control"].items()}
+    if "readings" in p:
+        q["readings"] = {fk.get(k, k): {fr.get(k, {}).get(r, r): v for r, v in rd.items()} for k, rd in p["readings"].items()}
+    if "P" in p:
+        # the covariance is given in layout (name-sorted) order: keep every NAMED entry where it was
+        old = sorted(p["state"])
+        new = sorted(q["state"])
+        idx = {g(n): i for i, n in enumerate(old)}
+        q["P"] = [[p["P"][idx[a]][idx[b]] for b in new] for a in new]
+    return q
+
+
+def random_renaming(rng, d):
+    used = [d["dt"]] + d["state"] + d["control"] + d["calibration"]
+    pool = [n for n in NAME_POOL if n not in used]
+    rng.shuffle(pool)
+    names = d["state"] + d["control"] + d["calibration"]
+    f = dict(zip(names, pool))
+    fr = {}
+    for k, rd in d["sensors"].items():
+        rp = [n for n in READING_POOL if n not in rd]
+        rng.shuffle(rp)
+        fr[k] = dict(zip(rd, rp))
+    kp = [n for n in SENSOR_POOL if n not in d["sensors"]]
+    rng.shuffle(kp)
+    fk = dict(zip(d["sensors"], kp))
+    return f, fr, fk
